@@ -13,7 +13,12 @@ use std::{
 
 use serde_json::{Value, json};
 
-pub const VERIF_ROOT: &str = "/verif";
+/// Root of the verification tree: where evidence, replays and the known
+/// findings live. The check script exports its own location so that a
+/// background run from a snapshot never writes into /verif.
+pub fn verif_root() -> String {
+    std::env::var("VERIF_ROOT").unwrap_or_else(|_| "/verif".to_owned())
+}
 
 #[derive(Clone, Copy, Debug, PartialEq, Eq)]
 pub enum Tier {
@@ -156,7 +161,7 @@ pub struct KnownFinding {
 }
 
 pub fn load_known_findings() -> Vec<KnownFinding> {
-    let path = format!("{VERIF_ROOT}/known_findings.jsonl");
+    let path = format!("{}/known_findings.jsonl", verif_root());
     let Ok(text) = fs::read_to_string(&path) else {
         return vec![];
     };
@@ -327,10 +332,10 @@ impl Ctx {
         let mut replay_paths = vec![];
         if self.args.replay.is_none() {
             // replay files of earlier runs are stale
-            let _ = fs::remove_dir_all(format!("{VERIF_ROOT}/replays/{prop}"));
+            let _ = fs::remove_dir_all(format!("{}/replays/{prop}", verif_root()));
         }
         if !unknown.is_empty() {
-            let dir = format!("{VERIF_ROOT}/replays/{prop}");
+            let dir = format!("{}/replays/{prop}", verif_root());
             let _ = fs::create_dir_all(&dir);
             for v in &unknown {
                 let path = format!("{dir}/{:016x}.json", fnv_str(&v.key));
@@ -394,7 +399,7 @@ impl Ctx {
             "violations": unknown.len(),
         });
         if self.args.replay.is_none() {
-            let dir = format!("{VERIF_ROOT}/evidence");
+            let dir = format!("{}/evidence", verif_root());
             let _ = fs::create_dir_all(&dir);
             let path = format!("{dir}/{prop}.json");
             let tmp = format!("{path}.tmp");
